@@ -11,6 +11,8 @@ import (
 	"github.com/mithrandie/csvq/lib/query"
 	"github.com/mithrandie/csvq/lib/value"
 	"github.com/mithrandie/ternary"
+
+	"verifharness/hc"
 )
 
 // sqlLit spells p as csvq program text when that is possible without going through another
@@ -82,7 +84,7 @@ func sqlLits(ps ...value.Primary) ([]string, bool) {
 }
 
 // evalRow runs `SELECT e1, e2, …` and returns the first record, or the error.
-func evalRow(pr *Proc, exprs ...string) ([]value.Primary, error) {
+func evalRow(pr *hc.Proc, exprs ...string) ([]value.Primary, error) {
 	v, err := pr.Query("SELECT " + strings.Join(exprs, ", "))
 	if err != nil {
 		return nil, err
@@ -96,9 +98,9 @@ func evalRow(pr *Proc, exprs ...string) ([]value.Primary, error) {
 
 func ternOf(p value.Primary) string {
 	if t, ok := p.(*value.Ternary); ok {
-		return encT(t.Ternary())
+		return hc.EncT(t.Ternary())
 	}
-	return "?" + encVal(p)
+	return "?" + hc.EncVal(p)
 }
 
 func ternsOf(ps []value.Primary) string {
@@ -116,11 +118,13 @@ var sqlOps = []string{"=", "<>", "<", "<=", ">", ">=", "=="}
 
 func tnot(t ternary.Value) ternary.Value { return ternary.Not(t) }
 
-func runC06(seed int64, n int, dir string) {
-	g := NewGen(seed)
-	o := NewOut(dir)
+func main() { hc.Main(runC06) }
+
+func runC06(seed int64, n int, dir string, _ []string) {
+	g := hc.NewGen(seed)
+	o := hc.NewOut(dir)
 	defer o.Close()
-	pr := NewProc("")
+	pr := hc.NewProc("")
 	defer pr.Close()
 
 	// exhaustive Kleene tables against min/max/negation, on the real ternary package
@@ -128,7 +132,7 @@ func runC06(seed int64, n int, dir string) {
 	rank := map[ternary.Value]int{ternary.FALSE: 0, ternary.UNKNOWN: 1, ternary.TRUE: 2}
 	for _, a := range tv {
 		if rank[ternary.Not(a)] != 2-rank[a] {
-			o.Law("kleene_not", encT(a))
+			o.Law("kleene_not", hc.EncT(a))
 		}
 		for _, b := range tv {
 			mn, mx := rank[a], rank[a]
@@ -139,10 +143,10 @@ func runC06(seed int64, n int, dir string) {
 				mx = rank[b]
 			}
 			if rank[ternary.And(a, b)] != mn {
-				o.Law("kleene_and", encT(a)+" "+encT(b))
+				o.Law("kleene_and", hc.EncT(a)+" "+hc.EncT(b))
 			}
 			if rank[ternary.Or(a, b)] != mx {
-				o.Law("kleene_or", encT(a)+" "+encT(b))
+				o.Law("kleene_or", hc.EncT(a)+" "+hc.EncT(b))
 			}
 			pa, pb := value.NewTernary(a), value.NewTernary(b)
 			la, _ := sqlLit(pa)
@@ -152,7 +156,7 @@ func runC06(seed int64, n int, dir string) {
 				o.Law("logic_sql_error", err.Error())
 				continue
 			}
-			o.Case("c06.logic "+encProfile(pa)+" "+encProfile(pb), ternsOf(r))
+			o.Case("c06.logic "+hc.EncProfile(pa)+" "+hc.EncProfile(pb), ternsOf(r))
 		}
 	}
 
@@ -161,39 +165,39 @@ func runC06(seed int64, n int, dir string) {
 		if g.Intn(6) == 0 {
 			b = a // same operand: reflexive cases
 		}
-		ea, eb := encProfile(a), encProfile(b)
+		ea, eb := hc.EncProfile(a), hc.EncProfile(b)
 
 		// ---- the ladder and the six operators, direct calls ----
-		r := value.CompareCombinedly(a, b, nil, utc)
-		eq, ne := value.Equal(a, b, nil, utc), value.NotEqual(a, b, nil, utc)
-		lt, le := value.Less(a, b, nil, utc), value.LessOrEqual(a, b, nil, utc)
-		gt, ge := value.Greater(a, b, nil, utc), value.GreaterOrEqual(a, b, nil, utc)
+		r := value.CompareCombinedly(a, b, nil, hc.UTC)
+		eq, ne := value.Equal(a, b, nil, hc.UTC), value.NotEqual(a, b, nil, hc.UTC)
+		lt, le := value.Less(a, b, nil, hc.UTC), value.LessOrEqual(a, b, nil, hc.UTC)
+		gt, ge := value.Greater(a, b, nil, hc.UTC), value.GreaterOrEqual(a, b, nil, hc.UTC)
 		id := value.Identical(a, b)
 		// evalComparison: NULL on the left short-circuits to UNKNOWN
-		o.Case("c06.cmp "+ea+" "+eb, strings.Join([]string{cmpNames[r], encT(eq), encT(ne), encT(lt), encT(le), encT(gt), encT(ge), encT(id)}, " "))
+		o.Case("c06.cmp "+ea+" "+eb, strings.Join([]string{cmpNames[r], hc.EncT(eq), hc.EncT(ne), hc.EncT(lt), hc.EncT(le), hc.EncT(gt), hc.EncT(ge), hc.EncT(id)}, " "))
 		o.Count("cmp:" + cmpNames[r])
-		o.NonTrivial("cmp:" + className(a) + "/" + className(b) + "/" + cmpNames[r])
+		o.NonTrivial("cmp:" + hc.ClassName(a) + "/" + hc.ClassName(b) + "/" + cmpNames[r])
 
 		// laws on the implementation's own answers
-		rb := value.CompareCombinedly(b, a, nil, utc)
-		if value.Less(a, b, nil, utc) != value.Greater(b, a, nil, utc) {
-			o.Law("lt_iff_gt", []string{encVal(a), encVal(b)})
+		rb := value.CompareCombinedly(b, a, nil, hc.UTC)
+		if value.Less(a, b, nil, hc.UTC) != value.Greater(b, a, nil, hc.UTC) {
+			o.Law("lt_iff_gt", []string{hc.EncVal(a), hc.EncVal(b)})
 		}
-		if le != value.GreaterOrEqual(b, a, nil, utc) {
-			o.Law("le_iff_ge", []string{encVal(a), encVal(b)})
+		if le != value.GreaterOrEqual(b, a, nil, hc.UTC) {
+			o.Law("le_iff_ge", []string{hc.EncVal(a), hc.EncVal(b)})
 		}
-		if eq != value.Equal(b, a, nil, utc) {
-			o.Law("eq_symm", []string{encVal(a), encVal(b)})
+		if eq != value.Equal(b, a, nil, hc.UTC) {
+			o.Law("eq_symm", []string{hc.EncVal(a), hc.EncVal(b)})
 		}
 		if ne != tnot(eq) {
-			o.Law("ne_not_eq", []string{encVal(a), encVal(b)})
+			o.Law("ne_not_eq", []string{hc.EncVal(a), hc.EncVal(b)})
 		}
 		if r == value.IsEqual || r == value.IsLess || r == value.IsGreater {
 			if le != ternary.Or(lt, eq) {
-				o.Law("le_expand", []string{encVal(a), encVal(b)})
+				o.Law("le_expand", []string{hc.EncVal(a), hc.EncVal(b)})
 			}
 			if ge != ternary.Or(gt, eq) {
-				o.Law("ge_expand", []string{encVal(a), encVal(b)})
+				o.Law("ge_expand", []string{hc.EncVal(a), hc.EncVal(b)})
 			}
 			n := 0
 			for _, t := range []ternary.Value{lt, eq, gt} {
@@ -202,7 +206,7 @@ func runC06(seed int64, n int, dir string) {
 				}
 			}
 			if n != 1 {
-				o.Law("trichotomy", []string{encVal(a), encVal(b)})
+				o.Law("trichotomy", []string{hc.EncVal(a), hc.EncVal(b)})
 			}
 		}
 		flip := map[value.ComparisonResult]value.ComparisonResult{value.IsLess: value.IsGreater, value.IsGreater: value.IsLess}
@@ -211,10 +215,10 @@ func runC06(seed int64, n int, dir string) {
 			exp = f
 		}
 		if rb != exp {
-			o.Law("cmp_symm", []string{encVal(a), encVal(b)})
+			o.Law("cmp_symm", []string{hc.EncVal(a), hc.EncVal(b)})
 		}
 		if (value.IsNull(a) || value.IsNull(b)) && eq != ternary.UNKNOWN {
-			o.Law("null_unknown", []string{encVal(a), encVal(b)})
+			o.Law("null_unknown", []string{hc.EncVal(a), hc.EncVal(b)})
 		}
 
 		// ---- the same through program text ----
@@ -225,7 +229,7 @@ func runC06(seed int64, n int, dir string) {
 			}
 			res, err := evalRow(pr, exprs...)
 			if err != nil {
-				o.Law("cmp_sql_error", []string{encVal(a), encVal(b), err.Error()})
+				o.Law("cmp_sql_error", []string{hc.EncVal(a), hc.EncVal(b), err.Error()})
 			} else {
 				o.Case("c06.cmpsql "+ea+" "+eb, ternsOf(res))
 				o.Count("cmpsql")
@@ -233,7 +237,7 @@ func runC06(seed int64, n int, dir string) {
 		}
 
 		c := g.Val()
-		ec := encProfile(c)
+		ec := hc.EncProfile(c)
 		switch i % 6 {
 		case 0: // BETWEEN
 			neg := g.Intn(2)
@@ -248,13 +252,13 @@ func runC06(seed int64, n int, dir string) {
 					break
 				}
 				o.Case(fmt.Sprintf("c06.between %d %s %s %s", neg, ea, eb, ec), ternOf(res[0]))
-				o.NonTrivial("between:" + ternOf(res[0]) + className(a) + className(b) + className(c))
+				o.NonTrivial("between:" + ternOf(res[0]) + hc.ClassName(a) + hc.ClassName(b) + hc.ClassName(c))
 				want := res[1].(*value.Ternary).Ternary()
 				if neg == 1 {
 					want = tnot(want)
 				}
 				if !value.IsNull(a) && res[0].(*value.Ternary).Ternary() != want {
-					o.Law("between_expand", []string{encVal(a), encVal(b), encVal(c)})
+					o.Law("between_expand", []string{hc.EncVal(a), hc.EncVal(b), hc.EncVal(c)})
 				}
 			}
 		case 1, 2: // IN / ANY / ALL over a list
@@ -273,7 +277,7 @@ func runC06(seed int64, n int, dir string) {
 			}
 			enc := make([]string, len(list))
 			for j, p := range list {
-				enc[j] = encProfile(p)
+				enc[j] = hc.EncProfile(p)
 			}
 			lst := "(" + strings.Join(ls[1:], ", ") + ")"
 			op := sqlOps[g.Intn(6)]
@@ -289,10 +293,10 @@ func runC06(seed int64, n int, dir string) {
 			o.Case("c06.all "+op+" "+ea+" "+strings.Join(enc, " "), ternOf(res[3]))
 			o.NonTrivial(fmt.Sprintf("list:%d:%s%s%s", k, ternOf(res[0]), ternOf(res[2]), ternOf(res[3])))
 			if ternOf(res[0]) != ternOf(res[4]) {
-				o.Law("in_eq_any", encVal(a))
+				o.Law("in_eq_any", hc.EncVal(a))
 			}
 			if ternOf(res[1]) != ternOf(res[5]) {
-				o.Law("notin_eq_all", encVal(a))
+				o.Law("notin_eq_all", hc.EncVal(a))
 			}
 			// ANY / ALL equal the fold of the single comparisons
 			anyT, allT := ternary.FALSE, ternary.TRUE
@@ -301,15 +305,15 @@ func runC06(seed int64, n int, dir string) {
 				if value.IsNull(a) {
 					t = ternary.UNKNOWN
 				} else {
-					t = value.Compare(a, p, op, nil, utc)
+					t = value.Compare(a, p, op, nil, hc.UTC)
 				}
 				anyT, allT = ternary.Or(anyT, t), ternary.And(allT, t)
 			}
-			if encT(anyT) != ternOf(res[2]) {
-				o.Law("any_spec", []string{op, encVal(a)})
+			if hc.EncT(anyT) != ternOf(res[2]) {
+				o.Law("any_spec", []string{op, hc.EncVal(a)})
 			}
-			if encT(allT) != ternOf(res[3]) {
-				o.Law("all_spec", []string{op, encVal(a)})
+			if hc.EncT(allT) != ternOf(res[3]) {
+				o.Law("all_spec", []string{op, hc.EncVal(a)})
 			}
 		case 3: // IS, logic on arbitrary values
 			if ls, ok := sqlLits(a, b); ok {
@@ -330,10 +334,10 @@ func runC06(seed int64, n int, dir string) {
 					o.Law("is_sql_error", err.Error())
 					break
 				}
-				o.Case("c06.is 0 "+ea+" "+encProfile(pb), ternOf(res[0]))
-				o.Case("c06.is 1 "+ea+" "+encProfile(pb), ternOf(res[1]))
+				o.Case("c06.is 0 "+ea+" "+hc.EncProfile(pb), ternOf(res[0]))
+				o.Case("c06.is 1 "+ea+" "+hc.EncProfile(pb), ternOf(res[1]))
 				o.Case("c06.logic "+ea+" "+eb, ternsOf(res[2:5]))
-				o.NonTrivial("is:" + className(a) + rhs + ternOf(res[0]))
+				o.NonTrivial("is:" + hc.ClassName(a) + rhs + ternOf(res[0]))
 			}
 		case 4: // CASE
 			k := g.Intn(4) + 1
@@ -351,7 +355,7 @@ func runC06(seed int64, n int, dir string) {
 			}
 			enc := make([]string, k)
 			for j, p := range conds {
-				enc[j] = encProfile(p)
+				enc[j] = hc.EncProfile(p)
 			}
 			withVal := g.Intn(2)
 			sql := "CASE "
@@ -394,14 +398,14 @@ func runC06(seed int64, n int, dir string) {
 				}
 			}
 			for _, p := range xs {
-				encs = append(encs, encProfile(p))
+				encs = append(encs, hc.EncProfile(p))
 			}
 			for _, p := range ys {
-				encs = append(encs, encProfile(p))
+				encs = append(encs, hc.EncProfile(p))
 			}
 			op := sqlOps[g.Intn(7)]
-			t, err := value.CompareRowValues(xs, ys, op, nil, utc)
-			got := encT(t)
+			t, err := value.CompareRowValues(xs, ys, op, nil, hc.UTC)
+			got := hc.EncT(t)
 			if err != nil {
 				got = "E"
 			}
@@ -421,10 +425,10 @@ func runC06(seed int64, n int, dir string) {
 		res, err := query.Calculate(x, y, int(op[0]))
 		got := "E"
 		if err == nil {
-			got = encVal(res)
+			got = hc.EncVal(res)
 		}
-		o.Case("c06.arith "+op+" "+encProfile(x)+" "+encProfile(y), got)
-		o.NonTrivial("arith:" + op + className(x) + className(y) + got[:1])
+		o.Case("c06.arith "+op+" "+hc.EncProfile(x)+" "+hc.EncProfile(y), got)
+		o.NonTrivial("arith:" + op + hc.ClassName(x) + hc.ClassName(y) + got[:1])
 		ix, iy := value.ToIntegerStrictly(x), value.ToIntegerStrictly(y)
 		fx, fy := value.ToFloat(x), value.ToFloat(y)
 		bothInt := !value.IsNull(ix) && !value.IsNull(iy)
@@ -433,25 +437,25 @@ func runC06(seed int64, n int, dir string) {
 			_, isI := res.(*value.Integer)
 			_, isF := res.(*value.Float)
 			if value.IsNull(res) != (!bothInt && !bothFlt) {
-				o.Law("calc_null_iff", []string{op, encVal(x), encVal(y)})
+				o.Law("calc_null_iff", []string{op, hc.EncVal(x), hc.EncVal(y)})
 			}
 			if isI != bothInt {
-				o.Law("calc_int_iff", []string{op, encVal(x), encVal(y)})
+				o.Law("calc_int_iff", []string{op, hc.EncVal(x), hc.EncVal(y)})
 			}
 			if isF != (!bothInt && bothFlt) {
-				o.Law("calc_float_otherwise", []string{op, encVal(x), encVal(y)})
+				o.Law("calc_float_otherwise", []string{op, hc.EncVal(x), hc.EncVal(y)})
 			}
 		} else if !(bothInt && (op == "/" || op == "%") && iy.(*value.Integer).Raw() == 0) {
-			o.Law("divzero_iff", []string{op, encVal(x), encVal(y)})
+			o.Law("divzero_iff", []string{op, hc.EncVal(x), hc.EncVal(y)})
 		}
 		if ls, ok := sqlLits(x, y); ok {
 			r2, err2 := evalRow(pr, ls[0]+" "+op+" "+ls[1])
 			g2 := "E"
 			if err2 == nil {
-				g2 = encVal(r2[0])
+				g2 = hc.EncVal(r2[0])
 			}
 			if g2 != got {
-				o.Law("arith_sql_vs_direct", []string{op, encVal(x), encVal(y), got, g2})
+				o.Law("arith_sql_vs_direct", []string{op, hc.EncVal(x), hc.EncVal(y), got, g2})
 			}
 		}
 		// float and integer arithmetic agree on integral operands (results exactly representable)
@@ -480,7 +484,7 @@ func runC06(seed int64, n int, dir string) {
 
 		// ---- profile of non-strings derived by the model ----
 		if _, isStr := a.(*value.String); !isStr {
-			o.Case("c06.prof "+encVal(a), encFullProfile(a))
+			o.Case("c06.prof "+hc.EncVal(a), hc.EncFullProfile(a))
 		}
 	}
 }
